@@ -1,5 +1,6 @@
 import Driver.Common
 import AranyaV.Model.Conc.Shm
+import AranyaV.Model.Conc.ShmMem
 /-!
 Driver for the shared-memory channel-table transition system (C40, C41, C42).  The harness
 replays the schedule it imposed on the real `WriteState` / `ReadState` threads:
@@ -15,6 +16,10 @@ replays the schedule it imposed on the real `WriteState` / `ReadState` threads:
 * `rs <i> <label> [w<k>]`          → `<snap> <label'> [ret <r>]`
 * `m …`                            → `m`      a step inside the futex mutex (stutter, see C43)
 * `end`                            → `end <snap>`
+* `mnew`                           → `ok`       fresh in-memory state (`AranyaV.ShmMem`)
+* `mo <op>`                        → `<r>`      one (atomic) operation on the in-memory state:
+      `add <dir> <par>` | `rm <x>` | `rmall` | `rmif <pred>` | `ex <x>` | `setup s|o <x>` |
+      `seal <k> <fail>` | `open <k> <fail>` | `drop <k>`
 
 `<snap>` = `r<readOff>w<writeOff> n<nextId> <genA>:<chansA> <genB>:<chansB> <lockedA><lockedB>`.
 `pc-mismatch <model label>`: the real thread is parked somewhere else than the model's pc;
@@ -89,7 +94,52 @@ def extraOk : List String → Bool
   | [x] => x.startsWith "w"
   | _ => false
 
-def drvStep (s : State) (toks : List String) : State × String :=
+/-! ### the in-memory state -/
+
+def mretStr : AranyaV.ShmMem.Ret → String
+  | .ok => "ok"
+  | .okId n => s!"id{n}"
+  | .bool b => s!"b{b01 b}"
+  | .notFound => "nf"
+  | .fErr => "ferr"
+  | .sealed q => s!"seq{q}"
+  | .opened => "opened"
+  | .ctx k => s!"ctx{k}"
+  | .invalid => "invalid"
+
+def mpred? : List String → Option (AranyaV.ShmMem.MChan → Bool)
+  | ["all"] => some fun _ => true
+  | ["none"] => some fun _ => false
+  | ["par", v] => v.toNat?.map fun v => fun c => c.par == v
+  | ["dir", d] => d.toNat?.map fun d => fun c => c.dir == d
+  | ["idlt", n] => n.toNat?.map fun n => fun c => c.id < n
+  | ["idge", n] => n.toNat?.map fun n => fun c => decide (c.id ≥ n)
+  | _ => none
+
+def mop? : List String → Option AranyaV.ShmMem.Op
+  | ["add", d, p] => match d.toNat?, p.toNat? with
+    | some d, some p => if d == 1 || d == 2 then some (.add d p) else none
+    | _, _ => none
+  | ["rm", x] => x.toNat?.map .remove
+  | ["rmall"] => some .removeAll
+  | "rmif" :: rest => (mpred? rest).map .removeIf
+  | ["ex", x] => x.toNat?.map .exists_
+  | ["setup", "s", x] => x.toNat?.map (.setup true)
+  | ["setup", "o", x] => x.toNat?.map (.setup false)
+  | ["seal", k, f] => match k.toNat?, Driver.bool? f with
+    | some k, some f => some (.sealC k f)
+    | _, _ => none
+  | ["open", k, f] => match k.toNat?, Driver.bool? f with
+    | some k, some f => some (.openC k f)
+    | _, _ => none
+  | ["drop", k] => k.toNat?.map .dropC
+  | _ => none
+
+structure DState where
+  shm : State
+  mem : AranyaV.ShmMem.State
+
+def shmStep (s : State) (toks : List String) : State × String :=
   match toks with
   | ["new", cap, n] => match cap.toNat?, n.toNat? with
     | some cap, some n => (init cap n, "ok")
@@ -121,5 +171,19 @@ def drvStep (s : State) (toks : List String) : State × String :=
   | "m" :: _ => (s, "m")
   | ["end"] => (s, s!"end {snap s}")
   | _ => (s, "bad-op")
+
+def drvStep (d : DState) (toks : List String) : DState × String :=
+  match toks with
+  | ["mnew"] => ({ d with mem := AranyaV.ShmMem.init }, "ok")
+  | "mo" :: rest => match mop? rest with
+    | none => (d, "bad-op")
+    | some o =>
+      let (m', r) := AranyaV.ShmMem.step d.mem o
+      ({ d with mem := m' }, mretStr r)
+  | _ =>
+    let (s', o) := shmStep d.shm toks
+    ({ d with shm := s' }, o)
+
+def drvInit : DState := ⟨init 0 0, AranyaV.ShmMem.init⟩
 
 end Driver.Shm
